@@ -109,7 +109,8 @@ def menu(variant, k):
 
 def run_case(case):
     variant, k, actions, order, premask = case
-    half = variant.endswith('+half')
+    half = '+half' in variant
+    deferred = '+deferred' in variant
     variant = variant.split('+')[0]
     actions = [tuple(a) if a is not None else None for a in actions]
     order = tuple(order)
@@ -198,7 +199,18 @@ def run_case(case):
         envx.log = []
         envx.gone_at = {}
         try:
-            d.dispatch('go', label)
+            if deferred and label == 'first':
+                # the event is posted while dispatching is disabled and
+                # released by the enabling assignment
+                d.dispatch_enabled = False
+                d.dispatch('go', label)
+                if envx.log:
+                    raise Violation('nothing_called_while_disabled',
+                                    f'{envx.log}', **feats)
+                hits['released_by_enabling'] = 1
+                d.dispatch_enabled = True
+            else:
+                d.dispatch('go', label)
         except Exception as exc:
             raise Violation('dispatch_raises_nothing',
                             f'{label} dispatch raised {exc!r} (case {case})',
@@ -310,6 +322,9 @@ def cases(tier):
                                 tier == 'thorough' or premask == 0):
                             out.append((variant + '+half', k, actions, order,
                                         premask))
+                        if tier == 'thorough' or premask == 0:
+                            out.append((variant + '+deferred', k, actions,
+                                        order, premask))
     return out
 
 
@@ -326,7 +341,8 @@ def run(tier, rep):
     rep.require_hits(disappeared_during_dispatch=1,
                      gone_before_being_reached=1,
                      dropped_between_operations=1,
-                     half_registered_then_dropped=1)
+                     half_registered_then_dropped=1,
+                     released_by_enabling=1)
     if all(len(calibration(v, 3)) == 6 for v in ('dispatcher', 'world')):
         rep.require_hits(order_012=1, order_021=1, order_102=1, order_120=1,
                          order_201=1, order_210=1)
